@@ -43,6 +43,7 @@ struct Meta {
 
 struct Result {
     int exit_code = -1;
+    bool rng_failed = false; // the entropy source delivered a permanent failure to the process
     bool crashed = false;   // killed by the scripted crash point
     bool cap_hit = false;
     std::string out;        // captured stdout
@@ -288,6 +289,7 @@ struct CliWorld : World {
             if (efd >= 0 && !keep) dup2(efd, 2);
             simrng_reset(simrng_cur(), 0xC11C11 ^ (uint64_t)g_os->calls[0], SIMRNG_RANDOM);
             if (rng_fail) simrng_arm(simrng_cur(), 0, rng_fail == 1 ? 1 : -2);
+            simrng_cur()->perm_observer = &g_os->rng_perm_fired; // whether a scripted failure is ever delivered depends on how often the tool asks
             simos_child_begin();
             std::vector<char *> argv;
             std::vector<std::string> store = args;
@@ -303,6 +305,7 @@ struct CliWorld : World {
         memcpy(r.fired, g_os->fired, sizeof r.fired);
         memcpy(r.calls, g_os->calls, sizeof r.calls);
         r.hard = g_os->hard_fault_fired != 0;
+        r.rng_failed = g_os->rng_perm_fired > 0;
         r.cap_hit = g_os->cap_hit != 0;
         r.out.assign((const char *)g_os->stdout_buf, g_os->stdout_len);
         if (WIFEXITED(st)) {
@@ -443,7 +446,7 @@ struct CliWorld : World {
         bool out_exists = use_stdio ? false : vfs_exists(out);
         Bytes produced = use_stdio ? Bytes(r.out.begin(), r.out.end()) : vfs_get(out, &ex);
         std::string site = std::string("asconcrypt.encrypt") + (use_stdio ? ".stdio" : "");
-        bool rng_failed = op.arg(4) != 0;
+        bool rng_failed = r.rng_failed; // the script names a call (every / the 2nd); the verdict follows what was delivered
         c.run->state(fmt("enc/%d/%d/%d/%d/%d", (int)(flags & 15), r.exit_code != 0, (int)r.hard, (int)r.crashed, (int)transient_fired(r)));
         if (r.cap_hit) { viol(c, "liveness", site, "syscall cap exceeded"); return; }
         if (rng_failed) c.run->fault("rng.perm_fail");
@@ -653,8 +656,8 @@ struct CliWorld : World {
     {
         std::string kf = "gen" + std::to_string(op.arg(0) % 3) + ".key";
         vfs_remove(kf.c_str());
-        bool rng_failed = op.arg(1) != 0;
-        Result r = run_tool(c, 0, {"asconcrypt", "-g", kf}, &op, 2, -1, rng_failed ? 1 : 0);
+        Result r = run_tool(c, 0, {"asconcrypt", "-g", kf}, &op, 2, -1, op.arg(1) != 0 ? 1 : 0);
+        bool rng_failed = r.rng_failed;
         c.run->fold_u64((uint64_t)r.exit_code);
         bool ex;
         Bytes k = vfs_get(kf, &ex);
